@@ -1,4 +1,4 @@
-import LinOp.C11.Proofs
+import LinOp.C11.ProofsMinres3
 import LinOp.Generated.C11Consts
 /-!
 C11 — MINRES solves all shifted systems; contour quadrature gives the matrix root.  Property theorems only.
@@ -331,6 +331,247 @@ theorem sqrtInvMatmul_lhs_result {n : Nat} (ciqCol : Vec α n → CiqOut α n) (
   simp [sqrtInvMatmulLhs, sqrtInvMatmul, List.map_append, List.take_left']
 
 end field
+
+/-! ### MINRES: global statements about the whole iteration
+
+`trk N P s σ (track0 N s b) j` is the state `(Lanczos variables, Givens/solution variables)` of the pair (column `s`, shift
+`σ`) after `j` executions of the loop body, started from the normalised right-hand side `b` — by `minres_output_is_track`
+this is what the model's `minres` returns (`j = iters`).  `A` is the effective operator `v ↦ value · matmul_closure(v)`,
+`pinv` inverts the preconditioner (`LinearMap.id` without one): the systems are `(A + σ·pinv) x = b`. -/
+
+section minres_global
+variable {α : Type} [Field α] {n : Nat}
+
+/-- **Output = iterated loop body.**  For column `m` (system `s`) and shift number `k` (value `σ`) the model's `minres`
+returns `solution` of the track `(s, σ)` after `iters ≤ min(max_iter, n+1)+2` iterations — whatever the convergence test
+decided, all columns and shifts stop at the same `iters` — masked for a zero column and multiplied by `rhs_norm`. -/
+theorem minres_output_is_track (N : NumOps α) (P : Params α) (sys : List (Sys α n)) (m k : Nat) (s : Sys α n) (σ : α)
+    (hs : sys[m]? = some s) (hσ : s.shifts[k]? = some σ) :
+    (minres N P sys).iters ≤ nIter P n ∧
+    ∃ col, (minres N P sys).x[m]? = some col ∧
+      col[k]? = some (fun i => (if (prep N P s).isZero then 0
+        else (trk N P s σ (track0 N s (prep N P s).b) (minres N P sys).iters).2.sol i) * (prep N P s).nrm) :=
+  minres_output_track N P sys m k s σ hs hσ
+
+/-- **Residual recurrence (ghost-free, any preconditioner, clamped or not).**  As long as the steps are regular
+(`beta_curr ≠ 0` after the clamp, `radius_curr` a genuine non-zero root — automatic in exact arithmetic, see
+`minres_regular_of_exact`), the true residual `r_j = b − (A + σ·pinv) x_j` of the model's iterate obeys
+`r_0 = b`, `r_{j+1} = s_{j+1}² r_j + (φ̄_{j+1} c_{j+1}) z_{j+2}` with `s, c` the Givens coefficients, `φ̄ = scale_prev` and
+`z_{j+2}` the newest Lanczos vector.  No orthogonality is used: this is an algebraic identity of the recurrences. -/
+theorem minres_residual_recurrence (N : NumOps α) (P : Params α) (s : Sys α n) (σ : α) (A pinv : Vec α n →ₗ[α] Vec α n)
+    (hA : ∀ v, applyA P s v = A v) (hpre : ∀ v, pinv (s.pre v) = v) (b : Vec α n)
+    (hb0 : (initLz N s b).betaPrev ≠ 0) (J : Nat) (hreg : Regular N P s σ (track0 N s b) J) (j : Nat) (hj : j + 1 ≤ J)
+    (i : Fin n) :
+    b i - (A (trk N P s σ (track0 N s b) 0).2.sol i + σ * pinv (trk N P s σ (track0 N s b) 0).2.sol i) = b i ∧
+    b i - (A (trk N P s σ (track0 N s b) (j + 1)).2.sol i + σ * pinv (trk N P s σ (track0 N s b) (j + 1)).2.sol i) =
+      (trk N P s σ (track0 N s b) (j + 1)).2.sin1 * (trk N P s σ (track0 N s b) (j + 1)).2.sin1 *
+        (b i - (A (trk N P s σ (track0 N s b) j).2.sol i + σ * pinv (trk N P s σ (track0 N s b) j).2.sol i)) +
+      (trk N P s σ (track0 N s b) (j + 1)).2.scalePrev * (trk N P s σ (track0 N s b) (j + 1)).2.cos1 *
+        (trk N P s σ (track0 N s b) (j + 1)).1.z1 i := by
+  constructor
+  · have h0 : (trk N P s σ (track0 N s b) 0).2.sol = 0 := rfl
+    rw [h0, map_zero, map_zero]; simp
+  · have h1 := (trackInv_iter N P s σ A pinv hA hpre b hb0 J hreg j (by omega)).res i
+    have h2 := (trackInv_iter N P s σ A pinv hA hpre b hb0 J hreg (j + 1) hj).res i
+    have hm := resDir_succ N P s σ (track0 N s b) j i
+    have hsc := scale_succ N P s σ (track0 N s b) j
+    unfold resDir at hm
+    rw [hm] at h2
+    rw [h2, h1, hsc]; ring
+
+/-- **`minres_residual_norm`, scale part** (the code, no hypothesis): `scale_prev` after `j` iterations is
+`(−1)^j · β₀ · s_1 s_2 ⋯ s_j` (`β₀ = beta_prev` before the loop). -/
+theorem minres_scale_product (N : NumOps α) (P : Params α) (s : Sys α n) (σ : α) (b : Vec α n) (j : Nat) :
+    (trk N P s σ (track0 N s b) j).2.scalePrev =
+      (-1) ^ j * (initLz N s b).betaPrev * ∏ k ∈ Finset.range j, (trk N P s σ (track0 N s b) (k + 1)).2.sin1 :=
+  scale_prod N P s σ (track0 N s b) j
+
+/-- **`minres_residual_norm`** — without preconditioner (`pre = id`), if the Lanczos vectors `z_0 … z_J` produced by the
+model are orthonormal (hypothesis `LanczosOrthonormal`: the C09-style exact-arithmetic Lanczos property, which needs a
+symmetric closure and no clamping; NOT re-proved here), then for every `j ≤ J` the squared norm of the true residual
+`b − (A + σI) x_j` equals `scale_prev²`, i.e. `‖r_j‖ = β₀ |s_1 ⋯ s_j|` by `minres_scale_product`. -/
+theorem minres_residual_norm (N : NumOps α) (P : Params α) (s : Sys α n) (σ : α) (A : Vec α n →ₗ[α] Vec α n)
+    (hA : ∀ v, applyA P s v = A v) (hpre : ∀ v, s.pre v = v) (b : Vec α n)
+    (hb0 : (initLz N s b).betaPrev ≠ 0) (J : Nat) (hreg : Regular N P s σ (track0 N s b) J)
+    (horth : LanczosOrthonormal N P s σ (track0 N s b) J) (j : Nat) (hj : j ≤ J) :
+    dot (fun i => b i - (A (trk N P s σ (track0 N s b) j).2.sol i + σ * (trk N P s σ (track0 N s b) j).2.sol i))
+        (fun i => b i - (A (trk N P s σ (track0 N s b) j).2.sol i + σ * (trk N P s σ (track0 N s b) j).2.sol i)) =
+      (trk N P s σ (track0 N s b) j).2.scalePrev * (trk N P s σ (track0 N s b) j).2.scalePrev := by
+  have hinv := fun j hj => trackInv_iter N P s σ A LinearMap.id hA (fun v => by rw [hpre]; rfl) b hb0 J hreg j hj
+  have hfr := frame N P s σ (track0 N s b) J horth (fun j hj => (hinv j hj).rot1)
+    (by funext i; simp [resDir, ghost, gM1, gM0, trk, track0, initGv])
+    (by funext i; simp [imgDir, ghost, gP1, gM0, trk, track0, initGv, initLz]) j hj
+  have hres : (fun i => b i - (A (trk N P s σ (track0 N s b) j).2.sol i + σ * (trk N P s σ (track0 N s b) j).2.sol i)) =
+      fun i => (trk N P s σ (track0 N s b) j).2.scalePrev * resDir N P s σ (track0 N s b) j i + 0 * b i := by
+    funext i
+    have := (hinv j hj).res i
+    simp only [LinearMap.id_apply] at this
+    rw [this]; unfold resDir; ring
+  rw [hres, dot_lin_left, dot_lin_right, dot_lin_right, hfr.1]
+  ring
+
+/-- **MINRES as a QR least-squares solve (`x_j = Q_j R_j⁻¹ t_j`), vector form.**  Without preconditioner and with
+orthonormal Lanczos vectors (hypothesis, see `minres_residual_norm`), after `j ≤ J` regular iterations there are vectors
+`p_1 … p_j, m` (columns of `Z_{j+1} G_1ᵀ ⋯ G_jᵀ`) such that
+* `p_1 … p_j, m` are orthonormal;
+* `(A + σI) d_k = p_k` for the search vectors `d_k` (`search_curr` of iteration `k`) — and `D R = Q` column by column
+  (`z_k = diag·d_{k+1} + sub·d_k + subsub·d_{k−1}` with the three terms of `_jit_minres_updates`), so that
+  `(A + σI) Q_j = P_j R_j` is a QR factorisation with `R_j` upper triangular (three bands);
+* `b = Σ_k τ_k p_k + φ̄_j m` with `τ_k = φ̄_{k−1} c_k` (i.e. `(t_j, φ̄_j) = G_j ⋯ G_1 β₀e₁`), and `x_j = Σ_k τ_k d_k = D_j t_j`.
+Hence `x_j = Q_j R_j⁻¹ t_j` where `y_j = R_j⁻¹ t_j` solves `min ‖b − (A+σI) Q_j y‖ = min ‖β₀e₁ − T̄_j y‖`
+(`minres_optimal` is that minimisation statement). -/
+theorem minres_qr_identity (N : NumOps α) (P : Params α) (s : Sys α n) (σ : α) (A : Vec α n →ₗ[α] Vec α n)
+    (hA : ∀ v, applyA P s v = A v) (hpre : ∀ v, s.pre v = v) (b : Vec α n)
+    (hb0 : (initLz N s b).betaPrev ≠ 0) (J : Nat) (hreg : Regular N P s σ (track0 N s b) J)
+    (horth : LanczosOrthonormal N P s σ (track0 N s b) J) (j : Nat) (hj : j ≤ J) :
+    ∃ (p : Nat → Vec α n) (m : Vec α n),
+      (∀ a c, 1 ≤ a → a ≤ c → c ≤ j → dot (p a) (p c) = if a = c then 1 else 0) ∧
+      (∀ a, a ≤ j → dot (p a) m = 0) ∧ dot m m = 1 ∧
+      (∀ k, k ≤ j → ∀ i, A (trk N P s σ (track0 N s b) k).2.s1 i + σ * (trk N P s σ (track0 N s b) k).2.s1 i = p k i) ∧
+      (∀ i, b i - (A (trk N P s σ (track0 N s b) j).2.sol i + σ * (trk N P s σ (track0 N s b) j).2.sol i) =
+        (trk N P s σ (track0 N s b) j).2.scalePrev * m i) ∧
+      (trk N P s σ (track0 N s b) j).2.sol = ∑ k ∈ Finset.range j,
+        ((trk N P s σ (track0 N s b) k).2.scalePrev * (trk N P s σ (track0 N s b) (k + 1)).2.cos1) •
+          (trk N P s σ (track0 N s b) (k + 1)).2.s1 ∧
+      (∀ k, k < j → ∀ i,
+        let t := trk N P s σ (track0 N s b) k
+        let o := lanczosStep N P s t.1
+        let r := rotTerms N σ o.alpha t.1.betaPrev o.betaCurr t.2
+        t.1.z1 i = r.diag * (trk N P s σ (track0 N s b) (k + 1)).2.s1 i + r.sub * t.2.s1 i + r.subsub * t.2.s2 i) := by
+  have hinv := fun j hj => trackInv_iter N P s σ A LinearMap.id hA (fun v => by rw [hpre]; rfl) b hb0 J hreg j hj
+  have hm0 : resDir N P s σ (track0 N s b) 0 = (trk N P s σ (track0 N s b) 0).1.z1 := by
+    funext i; simp [resDir, ghost, gM1, gM0, trk, track0, initGv]
+  have hp0 : imgDir N P s σ (track0 N s b) 0 = fun _ => 0 := by
+    funext i; simp [imgDir, ghost, gP1, gM0, trk, track0, initGv, initLz]
+  have hrot := fun j hj => (hinv j hj).rot1
+  have hfr := frame N P s σ (track0 N s b) J horth hrot hm0 hp0 j hj
+  refine ⟨imgDir N P s σ (track0 N s b), resDir N P s σ (track0 N s b) j, ?_, hfr.2.2.1, hfr.1, ?_, ?_, ?_, ?_⟩
+  · intro a c ha hac hc
+    exact frame_img N P s σ (track0 N s b) J horth hrot hm0 hp0 a c hac ha (by omega)
+  · intro k hk i
+    have := (hinv k (by omega)).As1 i
+    simp only [LinearMap.id_apply] at this
+    exact this
+  · intro i
+    have := (hinv j hj).res i
+    simp only [LinearMap.id_apply] at this
+    exact this
+  · exact sol_sum N P s σ (track0 N s b) rfl j
+  · intro k hk i t o r
+    have hok := hreg k (by omega)
+    obtain ⟨hbc, hrad, hr0⟩ := hok
+    have hq : t.1.q1 = t.1.z1 := by
+      have := (hinv k (by omega)).pq
+      simpa only [LinearMap.id_apply] using this
+    have hd : r.diag ≠ 0 := by
+      have := (givens_qr_invariant N σ o.alpha t.1.betaPrev o.betaCurr t.2 hrad hr0).2.2
+      show (rotTerms N σ o.alpha t.1.betaPrev o.betaCurr t.2).diag ≠ 0
+      rw [this]; exact hr0
+    have hsr := (search_recurrence N σ o.alpha t.1.betaPrev o.betaCurr t.1.q1 t.2 hd i).1
+    rw [← hq]
+    have e : (trk N P s σ (track0 N s b) (k + 1)).2.s1 =
+        (givensStep N σ t.1.q1 o.alpha t.1.betaPrev o.betaCurr t.2).s1 := by rw [trk_succ]; rfl
+    rw [e]
+    linear_combination -hsr
+
+end minres_global
+
+/-! ### MINRES in exact arithmetic (ordered field, exact square root): optimality, monotonicity, breakdown -/
+
+section minres_exact
+variable {α : Type} [Field α] [LinearOrder α] [IsStrictOrderedRing α] {n : Nat}
+
+/-- In exact arithmetic with `eps > 0` every iteration is regular, in every state: the clamp keeps `beta_curr ≥ eps > 0`,
+hence `radius_curr = sqrt(diag² + beta_curr²) > 0`.  (So the `Regular` hypothesis of the theorems above is automatic; what the
+clamp destroys is the *normalisation* of the next Lanczos vector, not the recurrences.) -/
+theorem minres_regular_of_exact (N : NumOps α) (hN : ExactOps N) (P : Params α) (heps : 0 < P.eps) (s : Sys α n) (σ : α)
+    (t0 : Lz α n × Gv α n) (J : Nat) : Regular N P s σ t0 J ∧
+    ∀ j, P.eps ≤ (trk N P s σ t0 (j + 1)).1.betaPrev :=
+  ⟨regular_of_exact N hN P heps s σ t0 J, fun j => by rw [trk_succ]; exact betaCurr_ge_eps N hN P s _⟩
+
+/-- **MINRES optimality over the span of the search vectors** (exact arithmetic, no preconditioner, orthonormal Lanczos
+vectors as hypothesis): for every coefficient vector `y` the residual of `x = Σ_{k<j} y_k d_{k+1}` is at least as long as the
+residual of the model's iterate `x_j`, whose squared norm is `scale_prev²`.  (`span{d_1 … d_j} = span{z_0 … z_{j−1}}` is the
+Krylov space — `minres_qr_identity`, last clause, gives `z_k ∈ span{d}`; the converse inclusion and the identification with
+`span{b, Ab, …}` are not formalised.) -/
+theorem minres_optimal (N : NumOps α) (hN : ExactOps N) (P : Params α) (heps : 0 < P.eps) (s : Sys α n) (σ : α)
+    (A : Vec α n →ₗ[α] Vec α n) (hA : ∀ v, applyA P s v = A v) (hpre : ∀ v, s.pre v = v) (b : Vec α n)
+    (hb0 : (initLz N s b).betaPrev ≠ 0) (J : Nat) (horth : LanczosOrthonormal N P s σ (track0 N s b) J) (j : Nat)
+    (hj : j ≤ J) (y : Nat → α) :
+    let L : Vec α n →ₗ[α] Vec α n := A + σ • LinearMap.id
+    let xj := (trk N P s σ (track0 N s b) j).2.sol
+    let x := ∑ k ∈ Finset.range j, y k • (trk N P s σ (track0 N s b) (k + 1)).2.s1
+    (b - L xj) ⬝ᵥ (b - L xj) = (trk N P s σ (track0 N s b) j).2.scalePrev * (trk N P s σ (track0 N s b) j).2.scalePrev ∧
+    (b - L xj) ⬝ᵥ (b - L xj) ≤ (b - L x) ⬝ᵥ (b - L x) := by
+  intro L xj x
+  have hreg := regular_of_exact N hN P heps s σ (track0 N s b) J
+  have hinv := fun j hj => trackInv_iter N P s σ A LinearMap.id hA (fun v => by rw [hpre]; rfl) b hb0 J hreg j hj
+  have hm0 : resDir N P s σ (track0 N s b) 0 = (trk N P s σ (track0 N s b) 0).1.z1 := by
+    funext i; simp [resDir, ghost, gM1, gM0, trk, track0, initGv]
+  have hp0 : imgDir N P s σ (track0 N s b) 0 = fun _ => 0 := by
+    funext i; simp [imgDir, ghost, gP1, gM0, trk, track0, initGv, initLz]
+  have hfr := frame N P s σ (track0 N s b) J horth (fun j hj => (hinv j hj).rot1) hm0 hp0 j hj
+  have hLd : ∀ k, k < j → L ((fun k => (trk N P s σ (track0 N s b) (k + 1)).2.s1) k) =
+      (fun k => imgDir N P s σ (track0 N s b) (k + 1)) k := by
+    intro k hk
+    funext i
+    have := (hinv (k + 1) (by omega)).As1 i
+    simp only [LinearMap.id_apply] at this
+    simp only [L, LinearMap.add_apply, LinearMap.smul_apply, LinearMap.id_apply, Pi.add_apply, Pi.smul_apply,
+      smul_eq_mul]
+    exact this
+  have hres : b - L xj = (trk N P s σ (track0 N s b) j).2.scalePrev • resDir N P s σ (track0 N s b) j := by
+    funext i
+    have := (hinv j hj).res i
+    simp only [LinearMap.id_apply] at this
+    simp only [L, xj, LinearMap.add_apply, LinearMap.smul_apply, LinearMap.id_apply, Pi.add_apply, Pi.smul_apply,
+      Pi.sub_apply, smul_eq_mul]
+    exact this
+  have hcore := fun y => lsq_core L b xj (resDir N P s σ (track0 N s b) j) (trk N P s σ (track0 N s b) j).2.scalePrev
+    (fun k => (trk N P s σ (track0 N s b) (k + 1)).2.s1) (fun k => imgDir N P s σ (track0 N s b) (k + 1))
+    (fun k => (trk N P s σ (track0 N s b) k).2.scalePrev * (trk N P s σ (track0 N s b) (k + 1)).2.cos1) j
+    (sol_sum N P s σ (track0 N s b) rfl j) hLd hres (by rw [← dot_eq_dotProduct]; exact hfr.1)
+    (fun k hk => by rw [← dot_eq_dotProduct]; exact hfr.2.2.1 (k + 1) (by omega)) y
+  have hself : (b - L xj) ⬝ᵥ (b - L xj) =
+      (trk N P s σ (track0 N s b) j).2.scalePrev * (trk N P s σ (track0 N s b) j).2.scalePrev := by
+    rw [hres, smul_dotProduct, dotProduct_smul, ← dot_eq_dotProduct, hfr.1]; simp
+  refine ⟨hself, ?_⟩
+  rw [hself, hcore y]
+  have : 0 ≤ (∑ k ∈ Finset.range j, ((trk N P s σ (track0 N s b) k).2.scalePrev *
+      (trk N P s σ (track0 N s b) (k + 1)).2.cos1 - y k) • imgDir N P s σ (track0 N s b) (k + 1)) ⬝ᵥ
+      (∑ k ∈ Finset.range j, ((trk N P s σ (track0 N s b) k).2.scalePrev *
+      (trk N P s σ (track0 N s b) (k + 1)).2.cos1 - y k) • imgDir N P s σ (track0 N s b) (k + 1)) :=
+    Finset.sum_nonneg fun i _ => mul_self_nonneg _
+  linarith
+
+/-- **The residual norm never increases** (exact arithmetic; no orthogonality needed for the `scale` recurrence):
+`scale_prev_{j+1}² = s_{j+1}² · scale_prev_j² ≤ scale_prev_j²`.  Together with `minres_residual_norm` (`‖r_j‖² = scale_prev_j²`
+under orthonormal Lanczos vectors): `‖r_{j+1}‖ ≤ ‖r_j‖`. -/
+theorem minres_residual_monotone (N : NumOps α) (hN : ExactOps N) (P : Params α) (heps : 0 < P.eps) (s : Sys α n) (σ : α)
+    (A pinv : Vec α n →ₗ[α] Vec α n) (hA : ∀ v, applyA P s v = A v) (hpre : ∀ v, pinv (s.pre v) = v) (b : Vec α n)
+    (hb0 : (initLz N s b).betaPrev ≠ 0) (j : Nat) :
+    (trk N P s σ (track0 N s b) (j + 1)).2.scalePrev * (trk N P s σ (track0 N s b) (j + 1)).2.scalePrev =
+      (trk N P s σ (track0 N s b) (j + 1)).2.sin1 * (trk N P s σ (track0 N s b) (j + 1)).2.sin1 *
+        ((trk N P s σ (track0 N s b) j).2.scalePrev * (trk N P s σ (track0 N s b) j).2.scalePrev) ∧
+    (trk N P s σ (track0 N s b) (j + 1)).2.sin1 * (trk N P s σ (track0 N s b) (j + 1)).2.sin1 ≤ 1 ∧
+    (trk N P s σ (track0 N s b) (j + 1)).2.scalePrev * (trk N P s σ (track0 N s b) (j + 1)).2.scalePrev ≤
+      (trk N P s σ (track0 N s b) j).2.scalePrev * (trk N P s σ (track0 N s b) j).2.scalePrev := by
+  have hreg := regular_of_exact N hN P heps s σ (track0 N s b) (j + 1)
+  have hrot := (trackInv_iter N P s σ A pinv hA hpre b hb0 (j + 1) hreg (j + 1) (le_refl _)).rot1
+  have hsc := scale_succ N P s σ (track0 N s b) j
+  have h1 : (trk N P s σ (track0 N s b) (j + 1)).2.sin1 * (trk N P s σ (track0 N s b) (j + 1)).2.sin1 ≤ 1 := by
+    have := mul_self_nonneg (trk N P s σ (track0 N s b) (j + 1)).2.cos1
+    linarith
+  have h2 : (trk N P s σ (track0 N s b) (j + 1)).2.scalePrev * (trk N P s σ (track0 N s b) (j + 1)).2.scalePrev =
+      (trk N P s σ (track0 N s b) (j + 1)).2.sin1 * (trk N P s σ (track0 N s b) (j + 1)).2.sin1 *
+        ((trk N P s σ (track0 N s b) j).2.scalePrev * (trk N P s σ (track0 N s b) j).2.scalePrev) := by
+    rw [hsc]; ring
+  refine ⟨h2, h1, ?_⟩
+  rw [h2]
+  have := mul_self_nonneg (trk N P s σ (track0 N s b) j).2.scalePrev
+  nlinarith
+
+end minres_exact
 
 /-! ### hypotheses are satisfiable -/
 
